@@ -354,14 +354,18 @@ def execute(case):
         word = "SETCONF" if kind.startswith("fs") else "ADD_ONION"
         if special == "rejected":
             tor.script(word, (512 if word == "ADD_ONION" else 513, [("end", "Unacceptable: refused by the harness")]))
-        else:
+        elif special != "badkey":
             tor.hold_next(word)
         kw = dict(await_all_uploads=case["await_all"], progress=lambda p, tag, d: r.progress.append(p))
         if case.get("await_none") and not case["await_all"]:
             kw["await_all_uploads"] = None
         ports = ["80 127.0.0.1:8080"]
         reactor = OT.PortReactor()
-        if kind in ("eph3", "eph2"):
+        if special == "badkey":
+            # key material the client itself must refuse (line break / type not matching the version)
+            d = EphemeralOnionService.create(reactor, cfg, ports, version=int(kind[-1]),
+                                             private_key=case["badkey"], **kw)
+        elif kind in ("eph3", "eph2"):
             d = EphemeralOnionService.create(reactor, cfg, ports, version=int(kind[-1]), **kw)
         elif kind in ("auth-gen", "auth-key", "auth-discard"):
             pk = {"auth-gen": None, "auth-key": OT.KEYS.rsa(OT.CALLER_BASE).blob, "auth-discard": DISCARD}[kind]
@@ -372,7 +376,7 @@ def execute(case):
             d = FilesystemOnionService.create(reactor, cfg, hsdir, ports, version=int(kind[-1]), **kw)
         o = aud.watch(d, "create")
         link.pump()
-        if special == "rejected":
+        if special in ("rejected", "badkey"):
             addr = OT.KEYS.ed(77).service_id
         else:
             if len(tor.held) != 1:
@@ -385,7 +389,7 @@ def execute(case):
             return AO.hsdir_name(names[dn] if names else dn)
         for i, s in enumerate(stimuli):
             if s[0] == "R":
-                if special != "rejected":
+                if special not in ("rejected", "badkey"):
                     tor.release()
             else:
                 who = foreign if s[0] == "f" else addr
@@ -476,10 +480,11 @@ def run_case(case, rec):
     outcome = None if p is None else ("ok" if run.ok else "fail")
     detail = {"fired_at": p, "outcome": outcome, "error": run.err, "schedule": signature(stimuli)}
 
-    if special == "rejected":
+    if special in ("rejected", "badkey"):
         rec.count("rejected_cases")
         if outcome != "fail":
-            V("rejected-creating-command-did-not-fail-create", "creating-command-rejected", detail)
+            V("rejected-creation-did-not-fail-create",
+              "creating-command-rejected" if special == "rejected" else "key-rejected-before-sending", detail)
     elif special == "auth-discard":
         rec.count("auth_discard_cases")
         if p is None and (ref["can_ok"][-1] or ref["can_fail"][-1]):
@@ -548,7 +553,7 @@ def run_case(case, rec):
     # ---- cleanup -------------------------------------------------------------------------------
     if p is not None:
         rec.count("cleanup_checked")
-        cause = "creating-command-rejected" if special == "rejected" else "upload-events"
+        cause = {"rejected": "creating-command-rejected", "badkey": "key-rejected-before-sending"}.get(special, "upload-events")
         if run.left:
             V("listener-remains-after-%s" % ("success" if run.ok else "failure"), cause,
               dict(detail, listeners_left=len(run.left)))
@@ -593,6 +598,9 @@ def special_cases():
         for kind in KINDS:
             for st in ([["R"]], [["R"], ["f", "U", 0], ["f", "S", 0]], [["f", "U", 0], ["R"], ["f", "F", 0]]):
                 yield {"kind": kind, "await_all": aw, "stimuli": st, "special": "rejected"}
+        for kind, bk in (("eph2", "abc\ndef"), ("eph3", "abc\rdef"), ("eph3", "RSA1024:abcdef")):
+            yield {"kind": kind, "await_all": aw, "stimuli": [["R"], ["f", "U", 0], ["f", "S", 0]],
+                   "special": "badkey", "badkey": bk}
         for st in ([["R"]] + own, [["R"], ["o", "U", 0], ["o", "S", 0]], [["R"], ["o", "U", 0], ["o", "F", 0]],
                    [["R"], ["o", "U", 0], ["f", "U", 0], ["o", "F", 0], ["f", "S", 0]]):
             yield {"kind": "auth-discard", "await_all": aw, "stimuli": st, "special": "auth-discard"}
